@@ -47,6 +47,14 @@ def decodeFs : List Bytes → Parser.Fs
     if tag == ['e'] then { fs with exc := (name, content) :: fs.exc } else { fs with inc := (name, content) :: fs.inc }
   | _ => {}
 
+/-- `path content …` pairs → tree -/
+def decodeTree : List Bytes → Cli.Tree
+  | p :: c :: rest => (p, c) :: decodeTree rest
+  | _ => []
+
+def treeResp (o : Cli.Outcome) : String :=
+  "ok " ++ (if o.ok then "01" else "00") ++ String.join (o.tree.map fun (p, c) => " " ++ toHexArg p ++ " " ++ toHexArg c)
+
 /-- scenario encoding for `updater.decide`: fields of a release are separated by U+001F, assets by U+001E inside -/
 def parseVersion (b : Bytes) : Option Updater.Version :=
   if b == "none".toList then none
@@ -140,6 +148,20 @@ def respond (t : JoinTable) (op : String) (args : List Bytes) : String :=
     (match Parser.buildPairs pairs with
      | none => "diag"
      | some ps => "ok " ++ toHexArg (Parser.replaceSuffixes content ps))
+  | "cli.formatAll", check :: lintPaths :: files =>
+    let lp := splitCh '\n' lintPaths
+    treeResp (Cli.formatAll (check == ['1']) (fun p => lp.contains p) (decodeTree files))
+  | "cli.renumberAll", check :: files => treeResp (Cli.renumberAll (check == ['1']) (decodeTree files))
+  | "cli.copyrightAll", v :: y :: files => treeResp (Cli.copyrightAll v y (decodeTree files))
+  | "cli.generate", ue :: us :: un :: we :: ws :: wn :: arg :: files =>
+    let r := Cli.generateCmd (tableEngine t) ⟨ue, us, un, we, ws, wn⟩ Parser.idOrd Parser.idOrd (decodeTree files) arg
+    "ok " ++ (if r.ok then "01" else "00") ++ " " ++ toHexArg r.stdout
+  | "cli.update", ue :: us :: un :: we :: ws :: wn :: arg :: files =>
+    let r := Cli.updateCmd (tableEngine t) ⟨ue, us, un, we, ws, wn⟩ Parser.idOrd Parser.idOrd (decodeTree files) arg
+    treeResp ⟨r.tree, r.ok⟩
+  | "cli.updateAll", ue :: us :: un :: we :: ws :: wn :: files =>
+    let tr := decodeTree files
+    treeResp (Cli.updateAll (tableEngine t) ⟨ue, us, un, we, ws, wn⟩ Parser.idOrd Parser.idOrd {} tr tr)
   | "update.apply", [c, id, k, re] => exceptResp (Update.updateRegex c id k.length re)
   | "update.read", [c, id, k] => exceptResp (Update.readCurrentRegex c id k.length)
   | "ruleid.parse", [a] =>
